@@ -25,7 +25,7 @@ var synBare = []string{"a", "b", "c", "x1", "_y", "col", "T", "U", "where", "asc
 	"visible", "hidden", "linear", "log", "none", "axes", "panels", "stacked", "unstacked", "default", "innerunique", "leftouter", "limit", "filter", "order", "sort", "extend", "summarize",
 	// the same words in other letter cases
 	"NOT", "IsNull", "COUNT", "Where", "TRUE", "Null", "K", "k"}
-var synQuoted = []string{"q", "a b", "x`y", "we ird\"", "by", "and", "é", "1", "a.b", "sel'ect", "/*", "--", ";", "\\", "let", "in", "$left", "count()", "where"}
+var synQuoted = []string{"q", "a b", "x`y", "`a", "a`", "`b`", "``", "we ird\"", "by", "and", "é", "1", "a.b", "sel'ect", "/*", "--", ";", "\\", "let", "in", "$left", "count()", "where"}
 var synFuncs = []string{"f", "g", "sum", "min", "max", "not", "isnull", "isnotnull", "iff", "iif", "strcat", "tolower", "toupper", "now", "count", "countif", "coalesce", "asc", "where",
 	"NOT", "ISNULL", "IsNull", "STRCAT", "IFF", "COUNT", "ToLower", "NOW", "CountIf"}
 var synNums = []string{"0E5", "00E1", "0E-3", "0.0E5", "0", "1", "2", "42", "007", "1.5", ".5", "5.", "1e3", "1E-2", "2.5e+3", "0x1F", "0XaB", "0e0", "18446744073709551615", "00.10"}
